@@ -260,12 +260,12 @@ class Rules:
         src = self.regex_rule('R12', fname, src, r"(    fn fmt\(&self, f: &mut fmt::Formatter<'_>\) -> fmt::Result \{)", r'    #[verifier::external_body]\n\1')
         if fname == 'lib.rs':
             src = self.r5_oneshot(fname, src)
-            # R14: result-collection tails over the crate's own iterators -> assumed-spec helpers of the prelude
-            # (std iterator adapters `map`/`collect` and for-loops over custom iterators have no usable vstd spec)
-            src = self.regex_rule('R14', fname, src, r'Ok\(result\.recovery_iter\(\)\.map\(<\[u8\]>::to_vec\)\.collect\(\)\)', 'Ok(crate::vprelude::collect_recovery(&result))', expect=1)
-            src = self.regex_rule('R14', fname, src,
-                                  r'let mut result = HashMap::new\(\);\s*for \(index, original\) in decoder\.decode\(\)\?\.restored_original_iter\(\) \{\s*result\.insert\(index, original\.to_vec\(\)\);\s*\}',
-                                  'let decoder_result = decoder.decode()?;\n    let result = crate::vprelude::collect_restored(&decoder_result);', expect=1)
+            # R14 (decode): `for PAT in decoder.decode()?.restored_original_iter() {B}` -> the definition of `for` in the Rust
+            # reference, with the temporary hoisted into a `let` of an enclosing block (see r14_for_unfold). The loop over the
+            # crate's own iterator is then verified against the contract of its `next` (nothing assumed).
+            # (encode's tail `result.recovery_iter().map(<[u8]>::to_vec).collect()` is NOT rewritten: it is verified as written,
+            #  against vstd's specs of `map` / `collect` and the checked prophetic model of `Recovery` in results.vspec.)
+            src = self.r14_for_unfold(fname, src)
         if fname == 'engine/fwht.rs':
             src = self.r7_step_by(fname, src)
         src = self.r6_zip(fname, src)
@@ -293,6 +293,59 @@ class Rules:
         src = self.regex_rule('R5', fname, src, r'first\.as_ref\(\)\.len\(\)', 'first.len()', expect=1)
         src = self.regex_rule('R5', fname, src, r'first_recovery\.1\.as_ref\(\)\.len\(\)', 'first_recovery.1.len()', expect=1)
         return src
+
+    def r14_for_unfold(self, fname, src):
+        """R14: `for PAT in decoder.decode()?.restored_original_iter() {B}` (one place: lib.rs::decode) ->
+
+            {
+                let decoder_result = decoder.decode()?;
+                let mut decoder_result_iter = decoder_result.restored_original_iter();
+                loop {
+                    match decoder_result_iter.next() {
+                        Some(PAT) => {B}
+                        None => break,
+                    }
+                }
+            }
+
+        This is the definition of `for` (Rust reference, "Iterator loops"): `match IntoIterator::into_iter(EXPR) { mut iter =>
+        loop { match Iterator::next(&mut iter) { Some(val) => { let PAT = val; B }, None => break } } }`, with
+          * `IntoIterator::into_iter` on a type that is itself an `Iterator` being the identity (std's blanket
+            `impl<I: Iterator> IntoIterator for I { fn into_iter(self) -> I { self } }`) - the one std fact used;
+          * the temporary `decoder.decode()?` of the iterator expression bound by a `let` (Verus' own handling of a temporary
+            in that position shortens its lifetime, E0716): Rust keeps that temporary alive until the end of the `for`
+            statement, which the enclosing block reproduces (the iterator is dropped first, then the `DecoderResult`, exactly
+            as in the original; the `?` is evaluated at the same point, before the first `next`).
+        PAT and B are copied verbatim (`break` / `continue` inside B still refer to this loop). Verus' built-in `for` is not
+        used because it reasons through vstd's prophetic iterator model, which is not claimed for `RestoredOriginal`
+        (`obeys_prophetic_iter_laws() == false` in results.vspec); the unfolded loop calls the verified `next` directly."""
+        pat = r'for ([^\n]+?) in decoder\.decode\(\)\?\.restored_original_iter\(\) \{'
+        ms = list(re.finditer(pat, src))
+        if len(ms) != 1:
+            raise ExtractError('%s: rule R14 matched %d times, expected 1' % (fname, len(ms)))
+        m = ms[0]
+        self.note('R14', fname, src, m.start(), m.group(0)[:80])
+        j = m.end() - 1
+        depth, k = 0, j
+        while True:
+            if src[k] == '{': depth += 1
+            elif src[k] == '}':
+                depth -= 1
+                if depth == 0: break
+            k += 1
+        ind = re.search(r'([ \t]*)$', src[:m.start()]).group(1)
+        # the body keeps its own text; only its indentation is shifted (three levels deeper)
+        body = src[j + 1:k].rstrip().replace('\n', '\n            ') + '\n' + ind + '            '
+        new = ('{\n%s    let decoder_result = decoder.decode()?;\n'
+               '%s    let mut decoder_result_iter = decoder_result.restored_original_iter();\n'
+               '%s    loop {\n'
+               '%s        match decoder_result_iter.next() {\n'
+               '%s            Some(%s) => {%s}\n'
+               '%s            None => break,\n'
+               '%s        }\n'
+               '%s    }\n'
+               '%s}') % (ind, ind, ind, ind, ind, m.group(1), body, ind, ind, ind, ind)
+        return src[:m.start()] + new + src[k + 1:]
 
     def r7_step_by(self, fname, src):
         pat = r'for (\w+) in \((\w+)\.\.(\w+)\)\.step_by\((\w+)\) \{'
